@@ -186,7 +186,20 @@ def b_in_cmp(c):
 
 def b_str(c):
     v = c['v']
+    if isinstance(v, int) and not isinstance(v, bool):
+        return '[str($v), hex($v)]', c, [M.ystr(v), _hex(v)]
     return 'str($v)', c, M.ystr(v)
+
+
+def _hex(v):
+    digits = '0123456789abcdef'
+    n, out = abs(v), ''
+    while True:
+        out = digits[n % 16] + out
+        n //= 16
+        if n == 0:
+            break
+    return ('-' if v < 0 else '') + '0x' + out
 
 
 # regex -----------------------------------------------------------------
